@@ -9,7 +9,6 @@ package db
 import (
 	"errors"
 	"fmt"
-	"reflect"
 	"strings"
 
 	"github.com/alicebob/sqlittle/sql"
@@ -88,113 +87,158 @@ func newSchema(table string, master []sqliteMaster) (*Schema, error) {
 }
 
 // transform a `create table` statement into a Schema, which knows which
-// indexes are used
+// indexes are used.
+//
+// This follows what SQLite does when it reads a CREATE TABLE: every PRIMARY
+// KEY and UNIQUE constraint makes a `sqlite_autoindex_<table>_<n>` index, in
+// the order they are written, unless there already is an index on the same
+// columns with the same collations (sort order is not compared). A PRIMARY
+// KEY which is a duplicate of an earlier UNIQUE uses that index. An `integer
+// primary key` makes no index, except in a WITHOUT ROWID table, where it's
+// added after everything else.
 func newCreateTable(ct sql.CreateTableStmt) (*Schema, error) {
 	st := &Schema{
 		Table:        ct.Table,
 		WithoutRowid: ct.WithoutRowid,
 	}
-	autoindex := 1
 	for _, c := range ct.Columns {
-		col := TableColumn{
+		st.Columns = append(st.Columns, TableColumn{
 			Column:  c.Name,
 			Type:    c.Type,
 			Null:    c.Null,
 			Default: c.Default,
 			Collate: c.Collate,
 			Rowid:   false,
+		})
+	}
+
+	type autoIndex struct {
+		columns []IndexColumn
+		pk      bool
+	}
+	var (
+		autos    []autoIndex
+		rowidCol *TableColumn // the `integer primary key` column, if any
+		rowidDir sql.SortOrder
+	)
+	unique := func(pk bool, cols []IndexColumn) {
+		for i, ind := range autos {
+			if sameIndexColumns(ind.columns, cols) {
+				if pk {
+					autos[i].pk = true
+				}
+				return
+			}
+		}
+		autos = append(autos, autoIndex{columns: cols, pk: pk})
+	}
+	primaryKey := func(tableConstraint bool, cols []IndexColumn) error {
+		for _, c := range cols {
+			if st.column(c.Column) == nil {
+				return ErrInvalidDef
+			}
+		}
+		if len(cols) == 1 {
+			// is this column an alias for the rowid?
+			col := st.column(cols[0].Column)
+			if isRowid(tableConstraint, col.Type, cols[0].SortOrder) {
+				rowidCol = col
+				rowidDir = cols[0].SortOrder
+				return nil
+			}
+		}
+		unique(true, cols)
+		return nil
+	}
+
+	for _, c := range ct.Columns {
+		if c.Unique && c.UniqueFirst {
+			unique(false, []IndexColumn{{Column: c.Name, Collate: c.Collate}})
 		}
 		if c.PrimaryKey {
-			col.Rowid = (!ct.WithoutRowid) && isRowid(false, c.Type, c.PrimaryKeyDir)
-			col.Null = !ct.WithoutRowid && c.Null // w/o rowid forces not null
-
-			name := fmt.Sprintf("sqlite_autoindex_%s_%d", st.Table, autoindex)
-			if ct.WithoutRowid {
-				name = ""
-			}
-			if ct.WithoutRowid {
-				// non-rowid primary keys have a special place
-				st.setPK([]IndexColumn{
-					{
-						Column:    c.Name,
-						SortOrder: c.PrimaryKeyDir,
-					},
-				})
-				autoindex++
-			} else {
-				if col.Rowid {
-					st.RowidPK = true
-				} else if st.addIndex(
-					true,
-					name,
-					[]IndexColumn{
-						{
-							Column:    c.Name,
-							SortOrder: c.PrimaryKeyDir,
-						},
-					},
-				) {
-					autoindex++
-				}
+			if err := primaryKey(false, []IndexColumn{
+				{Column: c.Name, Collate: c.Collate, SortOrder: c.PrimaryKeyDir},
+			}); err != nil {
+				return nil, err
 			}
 		}
-		if c.Unique {
-			if st.addIndex(
-				false,
-				fmt.Sprintf("sqlite_autoindex_%s_%d", st.Table, autoindex),
-				[]IndexColumn{
-					{
-						Column:    c.Name,
-						SortOrder: sql.Asc,
-					},
-				},
-			) {
-				autoindex++
-			}
+		if c.Unique && !c.UniqueFirst {
+			unique(false, []IndexColumn{{Column: c.Name, Collate: c.Collate}})
 		}
-		st.Columns = append(st.Columns, col)
 	}
-constraint:
 	for _, c := range ct.Constraints {
 		switch c := c.(type) {
 		case sql.TablePrimaryKey:
-			if !ct.WithoutRowid && len(c.IndexedColumns) == 1 {
-				// is this column an alias for the rowid?
-				col := st.column(c.IndexedColumns[0].Column)
-				if col == nil {
-					return nil, ErrInvalidDef
-				}
-				if isRowid(true, col.Type, c.IndexedColumns[0].SortOrder) {
-					col.Rowid = true
-					st.RowidPK = true
-					continue constraint
-				}
-			}
-			if ct.WithoutRowid {
-				for _, co := range c.IndexedColumns {
-					col := st.column(co.Column)
-					if col == nil {
-						return nil, ErrInvalidDef
-					}
-					col.Null = false
-				}
-				st.setPK(st.toIndexColumns(c.IndexedColumns))
-				autoindex++
-				continue
-			}
-			name := fmt.Sprintf("sqlite_autoindex_%s_%d", st.Table, autoindex)
-			if st.addIndex(true, name, st.toIndexColumns(c.IndexedColumns)) {
-				autoindex++
+			if err := primaryKey(true, st.toIndexColumns(c.IndexedColumns)); err != nil {
+				return nil, err
 			}
 		case sql.TableUnique:
-			name := fmt.Sprintf("sqlite_autoindex_%s_%d", st.Table, autoindex)
-			if st.addIndex(false, name, st.toIndexColumns(c.IndexedColumns)) {
-				autoindex++
-			}
+			unique(false, st.toIndexColumns(c.IndexedColumns))
 		}
+	}
+	if ct.WithoutRowid && rowidCol != nil {
+		// no rowid to alias: it's a normal primary key, made last
+		unique(true, []IndexColumn{
+			{Column: rowidCol.Column, Collate: rowidCol.Collate, SortOrder: rowidDir},
+		})
+		rowidCol = nil
+	}
+
+	if rowidCol != nil {
+		rowidCol.Rowid = true
+		st.RowidPK = true
+	}
+	for i, ind := range autos {
+		name := fmt.Sprintf("sqlite_autoindex_%s_%d", st.Table, i+1)
+		if ind.pk && ct.WithoutRowid {
+			// non-rowid primary keys have a special place: it's the table
+			for _, c := range ind.columns {
+				dup := false
+				for _, pc := range st.PK {
+					if sameIndexColumns([]IndexColumn{pc}, []IndexColumn{c}) {
+						dup = true
+					}
+				}
+				if !dup {
+					st.PK = append(st.PK, c)
+				}
+				st.column(c.Column).Null = false // w/o rowid forces not null
+			}
+			continue
+		}
+		if ind.pk {
+			st.PrimaryKey = name
+		}
+		st.Indexes = append(st.Indexes, SchemaIndex{
+			Index:   name,
+			Columns: ind.columns,
+		})
+	}
+	if ct.WithoutRowid && st.PK == nil {
+		return nil, ErrInvalidDef
 	}
 
 	return st, nil
+}
+
+// same columns with the same collations. Sort order doesn't matter.
+func sameIndexColumns(a, b []IndexColumn) bool {
+	if len(a) != len(b) {
+		return false
+	}
+	collate := func(c string) string {
+		if c == "" {
+			return DefaultCollate
+		}
+		return strings.ToLower(c)
+	}
+	for i := range a {
+		if !strings.EqualFold(a[i].Column, b[i].Column) ||
+			collate(a[i].Collate) != collate(b[i].Collate) {
+			return false
+		}
+	}
+	return true
 }
 
 // add `CREATE INDEX` statement to a table
@@ -216,57 +260,16 @@ func (st *Schema) toIndexColumns(ci []sql.IndexedColumn) []IndexColumn {
 			Expression: col.Expression,
 			SortOrder:  col.SortOrder,
 		}
-		if col.Column != "" {
-			// not an expression column
-			base := st.column(col.Column)
-			if base != nil {
-				collate := base.Collate
-				if col.Collate != "" {
-					collate = col.Collate
-				}
-				c.Collate = collate
+		c.Collate = col.Collate
+		if col.Column != "" && col.Collate == "" {
+			// not an expression column: default is the collate of the column
+			if base := st.column(col.Column); base != nil {
+				c.Collate = base.Collate
 			}
 		}
 		cs = append(cs, c)
 	}
 	return cs
-}
-
-// add an index. This is a noop if an equivalent index already exists. Returns
-// whether the indexed got added.
-func (st *Schema) addIndex(pk bool, name string, cols []IndexColumn) bool {
-	if reflect.DeepEqual(st.PK, cols) {
-		return false
-	}
-	for _, ind := range st.Indexes {
-		if reflect.DeepEqual(ind.Columns, cols) {
-			if pk {
-				st.PrimaryKey = ind.Index
-			}
-			return false
-		}
-	}
-	st.Indexes = append(st.Indexes, SchemaIndex{
-		Index:   name,
-		Columns: cols,
-	})
-	if pk {
-		st.PrimaryKey = name
-	}
-	return true
-}
-
-// sets the PK key (for non-rowid tables). Deletes any duplicate indexes.
-func (st *Schema) setPK(cols []IndexColumn) {
-	st.PK = cols
-	for i, ind := range st.Indexes {
-		if reflect.DeepEqual(ind.Columns, cols) {
-			st.Indexes = append(st.Indexes[:i], st.Indexes[i+1:]...)
-			if len(st.Indexes) == 0 {
-				st.Indexes = nil // to make test diffs easier
-			}
-		}
-	}
 }
 
 // Returns the index of the named column, or -1.
